@@ -65,7 +65,66 @@ def classify_eq(prog, ci):
             kinds.add('other:%r under %r' % (v, p.pc))
     if kinds == {'else-false', 'vs-bool', 'vs-Bool'}:
         return ('bool-value',), f
+    if _bool_eq_by_cases(prog, res, me, other, boolc):
+        return ('bool-value',), f
     return ('other', sorted(kinds)), f
+
+
+def _bool_eq_by_cases(prog, res, me, other, boolc):
+    """the result of Bool.__eq__ for `other` a Bool / a bool / neither,
+    whatever the control structure: value comparison, value comparison,
+    False"""
+    def simp(v, case):
+        # truth of isinstance(other, X) in this case
+        if isinstance(v, App) and v.op == 'isinstance' and \
+                v.args[0] == other and isinstance(v.args[1], CRef):
+            c = v.args[1].ci
+            if isinstance(c, ExtClass):
+                return Const(case == 'bool' and c.name in ('bool', 'int',
+                                                            'object'))
+            if isinstance(c, ClassInfo):
+                return Const(case == 'Bool' and boolc.is_subclass_of(c)
+                             and c.is_subclass_of(boolc) or
+                             (case == 'Bool' and boolc.is_subclass_of(c)))
+        if isinstance(v, App) and v.op in ('and', 'or'):
+            xs = [simp(a, case) for a in v.args]
+            if v.op == 'and':
+                if any(x == Const(False) for x in xs):
+                    return Const(False)
+                xs = [x for x in xs if x != Const(True)]
+            else:
+                if any(x == Const(True) for x in xs):
+                    return Const(True)
+                xs = [x for x in xs if x != Const(False)]
+            if not xs:
+                return Const(v.op == 'and')
+            return xs[0] if len(xs) == 1 else App(v.op, *xs)
+        if isinstance(v, App) and v.op == 'not':
+            x = simp(v.args[0], case)
+            return Const(not x.v) if isinstance(x, Const) else App('not', x)
+        return v
+    want = {
+        'Bool': [App('cmp', Const('=='), App('attr', me, Const('_value')),
+                     App('attr', other, Const('_value')))],
+        'bool': [App('cmp', Const('=='), App('attr', me, Const('_value')),
+                     other),
+                 App('cmp', Const('=='), other,
+                     App('attr', me, Const('_value')))],
+        'neither': [Const(False)]}
+    for case in ('Bool', 'bool', 'neither'):
+        vals = set()
+        for (p, v) in res:
+            feasible = True
+            for (c, pol) in p.pc:
+                t = simp(c, case)
+                if isinstance(t, Const) and bool(t.v) != pol:
+                    feasible = False
+                    break
+            if feasible:
+                vals.add(simp(v, case))
+        if len(vals) != 1 or list(vals)[0] not in want[case]:
+            return False
+    return True
 
 
 def _positively_incoherent(ek, hk):
